@@ -2205,8 +2205,13 @@ class x86_mn(x86_mn_base):
         prefix = self.prefix[:]
         mnemo = [ self.m.name ]
         if self.m.modifs[mmx]:
-            if len(prefix) == 0: p = 0
-            else: p = prefix.pop()
+            # the last mandatory prefix (66/F2/F3) names the instruction;
+            # segment or lock prefixes may be present too
+            sse = [_ for _ in prefix if _ in mmx_prefixes[1:]]
+            if len(sse) == 0: p = 0
+            else:
+                p = sse[-1]
+                prefix.remove(p)
             p = mmx_prefixes.index(p)
             mnemo[0] = mmx_set_suffix(self.m.name, p)
             if mnemo[0] == 'movlps' \
@@ -2389,6 +2394,9 @@ class x86_mn(x86_mn_base):
                 #self.opmode = [u16,u32][size_op == u16]
             if 0x67 in read_prefix:
                 self.admode = [u16,u32][self.admode == u16]
+            # the mandatory prefix of an MMX/SSE opcode, whatever other
+            # (segment, lock, address-size) prefixes are present
+            sse_prefix = [_ for _ in read_prefix if _ in mmx_prefixes[1:]]
 
 
 
@@ -2400,9 +2408,9 @@ class x86_mn(x86_mn_base):
             #digit
             if afs in [d0, d1, d2, d3, d4, d5, d6, d7]:
                 if m.modifs[mmx]:
-                    if read_prefix == []:
+                    if sse_prefix == []:
                         self.admode = mm
-                    elif read_prefix == [0x66]:
+                    elif sse_prefix == [0x66]:
                         self.admode = xmm
                 re, modr = x86mndb.get_afs(bin, c, self.admode)
                 mnemo_args.append(modr)
@@ -2461,7 +2469,7 @@ class x86_mn(x86_mn_base):
                             self.opmode = xmm
                             self.admode = u32
                         elif m.name in ['#p#insrb', '#p#insrd', '#p#insrw', 'extract##PS#']:
-                            if read_prefix == []:
+                            if sse_prefix == []:
                                 self.opmode = mm
                             else:
                                 self.opmode = xmm
@@ -2469,7 +2477,7 @@ class x86_mn(x86_mn_base):
                         elif m.name in ['pmovmskb', '#p#extrw']:
                             # pextrw is 0x0F 0xC5 ...
                             self.opmode = u32
-                            if read_prefix == []:
+                            if sse_prefix == []:
                                 self.admode = mm
                             else:
                                 self.admode = xmm
@@ -2477,22 +2485,22 @@ class x86_mn(x86_mn_base):
                             self.opmode = xmm
                             self.admode = xmm
                         elif '#ps2pi' in m.name:
-                            if read_prefix == [] or read_prefix == [0x66]:
+                            if sse_prefix == [] or sse_prefix == [0x66]:
                                 self.opmode = mm
-                            elif read_prefix == [0xF2] or read_prefix == [0xF3]:
+                            elif sse_prefix == [0xF2] or sse_prefix == [0xF3]:
                                 self.opmode = u32
                             self.admode = xmm
                         elif '#pi2ps' in m.name:
                             self.opmode = xmm
-                            if read_prefix == [] or read_prefix == [0x66]:
+                            if sse_prefix == [] or sse_prefix == [0x66]:
                                 self.admode = mm
-                            elif read_prefix == [0xF2] or read_prefix == [0xF3]:
+                            elif sse_prefix == [0xF2] or sse_prefix == [0xF3]:
                                 self.admode = u32
                         elif   '#p#' in m.name \
                             or '#w#' in m.name \
                             or '#qa#' in m.name \
                             or '#qu#' in m.name:
-                            if read_prefix == []:
+                            if sse_prefix == []:
                                 self.opmode = mm
                             else:
                                 self.opmode = xmm
@@ -2513,19 +2521,19 @@ class x86_mn(x86_mn_base):
                             self.opmode = xmm
                             self.admode = xmm
                         elif '#q#' in m.name: # movntq/movntdq//
-                            if read_prefix == []:
+                            if sse_prefix == []:
                                 self.opmode = mm
-                            elif read_prefix == [0x66]:
+                            elif sse_prefix == [0x66]:
                                 self.opmode = xmm
                             self.admode = xmm
                         elif '#d#' in m.name: # movd/movd//movq
-                            if read_prefix == []:
+                            if sse_prefix == []:
                                 self.opmode = mm
                                 self.admode = u32
-                            elif read_prefix == [0x66]:
+                            elif sse_prefix == [0x66]:
                                 self.opmode = xmm
                                 self.admode = u32
-                            elif read_prefix == [0xF3]:
+                            elif sse_prefix == [0xF3]:
                                 self.opmode = xmm
                                 self.admode = xmm
                                 if not swap_args: return None
@@ -2561,42 +2569,42 @@ class x86_mn(x86_mn_base):
                         # For ModRM, the size of memory may not be the same
                         # as the size of the register
                         if m.name == 'mov#d#':
-                            if   read_prefix == [0x66]:
+                            if   sse_prefix == [0x66]:
                                 modr[x86_afs.size] = x86_afs.f32
-                            elif read_prefix == [0xF2]:
+                            elif sse_prefix == [0xF2]:
                                 NEVER
-                            elif read_prefix == [0xF3]:
+                            elif sse_prefix == [0xF3]:
                                 modr[x86_afs.size] = x86_afs.f64
                         elif '#ps#' in m.name or m.name == 'mov#ups#':
-                            if read_prefix == [0xF2]:
+                            if sse_prefix == [0xF2]:
                                 modr[x86_afs.size] = x86_afs.f64
-                            elif read_prefix == [0xF3]:
+                            elif sse_prefix == [0xF3]:
                                 modr[x86_afs.size] = x86_afs.f32
                         elif '#s#' in m.name:
-                            if read_prefix == []:
+                            if sse_prefix == []:
                                 modr[x86_afs.size] = x86_afs.f32
-                            elif read_prefix == [0x66]:
+                            elif sse_prefix == [0x66]:
                                 modr[x86_afs.size] = x86_afs.f64
-                            elif read_prefix == [0xF2] or read_prefix == [0xF3]:
+                            elif sse_prefix == [0xF2] or sse_prefix == [0xF3]:
                                 NEVER
                         elif '#ps2pi' in m.name or '#ps2pd' in m.name:
-                            if read_prefix == [] or read_prefix == [0xF2]:
+                            if sse_prefix == [] or sse_prefix == [0xF2]:
                                 modr[x86_afs.size] = x86_afs.f64
-                            elif read_prefix == [0xF3]:
+                            elif sse_prefix == [0xF3]:
                                 modr[x86_afs.size] = x86_afs.f32
                         elif '#pi2ps' in m.name:
-                            if read_prefix == [] or read_prefix == [0x66]:
+                            if sse_prefix == [] or sse_prefix == [0x66]:
                                 modr[x86_afs.size] = x86_afs.f64
-                            elif read_prefix == [0xF2] or read_prefix == [0xF3]:
+                            elif sse_prefix == [0xF2] or sse_prefix == [0xF3]:
                                 modr[x86_afs.size] = x86_afs.f32
                         elif '#pd2dq' in m.name:
-                            if read_prefix == [0xF3]:
+                            if sse_prefix == [0xF3]:
                                 modr[x86_afs.size] = x86_afs.f64
                         elif   '#lps#' in m.name or '#hps#' in m.name:
-                            if read_prefix == [] or read_prefix == [0x66]:
+                            if sse_prefix == [] or sse_prefix == [0x66]:
                                 modr[x86_afs.size] = x86_afs.f64
                         elif m.name == 'movq':
-                            if read_prefix == [] or read_prefix == [0x66]:
+                            if sse_prefix == [] or sse_prefix == [0x66]:
                                 modr[x86_afs.size] = x86_afs.f64
                     mnemo_args.append(mafs)
                     mnemo_args.append(modr)
